@@ -3708,6 +3708,14 @@ static Token *function(Token *tok, Type *basety, VarAttr *attr) {
       error_tok(tok, "static declaration follows a non-static declaration");
     fn->is_definition = fn->is_definition || equal(tok, "{");
 
+    // [https://www.sigbus.info/n1570#6.2.7p4] The type of a redeclared
+    // function is the composite type: if the earlier declarations have
+    // no parameter list ("T f()") and this one has, calls are checked
+    // and converted against this one from here on.
+    if (!fn->ty->params && fn->ty->is_variadic &&
+        (ty->params || !ty->is_variadic))
+      fn->ty = ty;
+
     // [https://www.sigbus.info/n1570#6.7.4p7] A definition is an inline
     // definition only if every file scope declaration of the function
     // says "inline" without "extern". Otherwise it is an external one.
